@@ -128,6 +128,7 @@ theorem kc_applyInfix (op : Bytes) (l r : Val) : KeepsCur (applyInfix op l r) :=
 theorem kc_updateIndex (l i v : Val) : KeepsCur (updateIndex l i v) := by unfold updateIndex; keepscur
 theorem kc_accessIndex (l i : Val) (h : Bool) : KeepsCur (accessIndex l i h) := by unfold accessIndex; keepscur
 theorem kc_memberOf (c : Val) (name : Bytes) : KeepsCur (memberOf c name) := fun _ _ => rfl
+theorem kc_mapKeyMissing (l i : Val) : KeepsCur (mapKeyMissing l i) := by unfold mapKeyMissing; keepscur
 
 structure AllCur (n : Nat) : Prop where
   evalExpr : ∀ (a : Option Expr), KeepsCur (evalExpr n a)
@@ -197,7 +198,7 @@ macro "keepscur_ih" ih:ident : tactic =>
     | kc_ih1 $ih
     | kc_ih2 $ih
     | exact kc_heapSlice _ | exact kc_heapMap _ | exact kc_renderVal _ | exact kc_applyOpOut _ _
-    | exact kc_applyInfix _ _ _ | exact kc_updateIndex _ _ _ | exact kc_accessIndex _ _ _ | exact kc_memberOf _ _
+    | exact kc_applyInfix _ _ _ | exact kc_updateIndex _ _ _ | exact kc_accessIndex _ _ _ | exact kc_memberOf _ _ | exact kc_mapKeyMissing _ _
     | (refine kc_forM _ _ (fun _ => ?_)) | (refine kc_mapM _ _ (fun _ => ?_))
     | refine kc_attempt ?_
     | refine kc_bind ?_ (fun _ => ?_)
